@@ -212,13 +212,14 @@ fn arb_detail() -> BoxedStrategy<Detail> {
 }
 
 fn sym_variant(i: u8) -> &'static str {
-    ["ACME", "acme", "Acme", "OTHR", "ZED"][i as usize % 5]
+    // other symbols sort before and after ACME, two share a prefix with it
+    ["ACME", "acme", "Acme", "OTHR", "ZED", "AAA", "ACM", "ACMEX"][i as usize % 8]
 }
 
 fn arb_entry() -> BoxedStrategy<Entry> {
     (
         -12i16..=12,
-        prop_oneof![6 => 0u8..3, 2 => 3u8..5],
+        prop_oneof![6 => 0u8..3, 3 => 3u8..8],
         prop_oneof![3 => Just(Some("Lapse")), 2 => Just(Some("Deposit")), 1 => Just(Some("Sale")), 1 => Just(None), 1 => Just(Some("Wire Transfer")), 1 => Just(Some("Tax Withholding"))],
         prop_oneof![1 => proptest::collection::vec(arb_detail(), 0..1), 9 => proptest::collection::vec(arb_detail(), 1..4)],
     )
@@ -270,7 +271,7 @@ pub struct Case19 {
 const RULE19: &str = "awards files with 1-8 entries per symbol at offsets -12..+12 days around a base date (month/year ends included), duplicate dates, vest-specific / fallback / blank price fields, vesting and cash actions with empty details, mixed-case symbols and noise symbols x 1-3 Stock Plan Activity rows at offsets -12..+12; also no awards file; non-trivial = >=2 candidate dates within +-8 days of a deposit, or the nearest candidate lies after the deposit, or the gap to the nearest earlier candidate is 7 or 8; distinct by case hash";
 
 fn strat19(_t: Tier) -> BoxedStrategy<Case19> {
-    (arb_base(), proptest::collection::vec(arb_entry(), 0..8), proptest::collection::vec((-12i16..=12, 0u8..3), 1..4), prop_oneof![9 => Just(true), 1 => Just(false)])
+    (arb_base(), proptest::collection::vec(arb_entry(), 0..8), proptest::collection::vec((-12i16..=12, prop_oneof![5 => 0u8..3, 1 => 3u8..8]), 1..4), prop_oneof![9 => Just(true), 1 => Just(false)])
         .prop_map(|(base, entries, deposits, with_awards)| Case19 { base, entries, deposits, with_awards })
         .boxed()
 }
